@@ -669,6 +669,22 @@ fn gen_scatter_nd(g: &mut G) -> Case {
     c.input(x).input(i).input(u)
 }
 
+fn gen_maxpool(g: &mut G) -> Case {
+    let (n, c) = (g.rng.range(1, 2) as usize, g.rng.range(1, 3) as usize);
+    let (h, w) = (g.dim_pos(), g.dim_pos());
+    let (kh, kw) = (g.rng.range(1, 3.min(h as i64 + 1)), g.rng.range(1, 3.min(w as i64 + 1)));
+    let pads: Vec<i64> = if g.rng.chance(1, 2) { vec![0; 4] } else {
+        vec![g.rng.range(0, kh - 1), g.rng.range(0, kw - 1), g.rng.range(0, kh - 1), g.rng.range(0, kw - 1)] };
+    let x = g.t(DType::F32, &[n, c, h, w], -8, 8);
+    let mut cse = Case::new("MaxPool", g.opset(&[8, 11, 12])).attr_is("kernel_shape", &[kh, kw]);
+    if g.rng.chance(2, 3) { cse = cse.attr_is("strides", &[g.rng.range(1, 3), g.rng.range(1, 3)]); }
+    if pads.iter().any(|p| *p != 0) || g.rng.chance(1, 3) { cse = cse.attr_is("pads", &pads); }
+    if g.rng.chance(1, 6) { cse = cse.attr_is("dilations", &[1, 1]); }
+    if g.rng.chance(1, 6) { cse = cse.attr_i("ceil_mode", 0); }
+    if g.rng.chance(1, 8) { cse = cse.attr_s("auto_pad", "NOTSET"); }
+    cse.input(x)
+}
+
 type GenFn = fn(&mut G) -> Case;
 const GENS: &[(&str, GenFn, u32)] = &[
     ("binary", gen_binary, 8), ("unary", gen_unary, 2), ("where", gen_where, 2), ("transpose", gen_transpose, 2),
@@ -677,7 +693,7 @@ const GENS: &[(&str, GenFn, u32)] = &[
     ("gather_nd", gen_gather_nd, 2), ("expand", gen_expand, 2), ("tile", gen_tile, 2), ("pad", gen_pad, 4),
     ("reduce", gen_reduce, 5), ("arg", gen_arg, 2), ("cumsum", gen_cumsum, 2), ("trilu", gen_trilu, 2), ("range", gen_range, 1),
     ("onehot", gen_onehot, 2), ("topk", gen_topk, 2), ("matmul", gen_matmul, 3), ("gemm", gen_gemm, 2),
-    ("scatter_elements", gen_scatter_elements, 2), ("scatter_nd", gen_scatter_nd, 2),
+    ("scatter_elements", gen_scatter_elements, 2), ("scatter_nd", gen_scatter_nd, 2), ("maxpool", gen_maxpool, 2),
 ];
 
 pub fn generate(seed: u64, n: usize, _tier: &str, only: Option<&str>) -> Vec<Case> {
